@@ -23,6 +23,20 @@ ASSUMPTIONS = [
     "':' products and e|g[l]).  The group part is read term by term there: the training labels of a term "
     "name the first len(labels) columns of its block new[name]; columns appended for new groups carry no "
     "label and are not judged here (C05 / C10 judge them)",
+    "term-by-term reading: besides the whole matrix next to the concatenated labels, every design "
+    "(training, and every evaluate_new_data result) is read through the slices -- dm.common[name], "
+    "dm.group[name], new[name] -- next to term.labels: the block of a term must have exactly as many "
+    "columns as the term has labels (none for a zero-column term such as the one-level factor `one` "
+    "under reduced coding) and each must hold what its label says (same decoder)",
+    "one frame object evaluated repeatedly: for every design with a group-specific term (and a quarter of "
+    "the others) a new frame (4-12 rows drawn from the training frame) is given to "
+    "common/group.evaluate_new_data, then edited IN PLACE twice (the DataFrame object stays the same) and "
+    "evaluated again after each edit: new values (levels / numbers of the training frame) in some or all "
+    "rows of one to three used columns -- a grouping variable at the first edit, effect variables, "
+    "numeric and categorical; by df[v] = ... or df.iloc[rows, j] = ... -- and / or an in-place "
+    "reordering of the rows (sort_values / sort_index with inplace=True, or every column rewritten in "
+    "permuted order); every evaluation is judged by the same decoder on the contents the frame has at "
+    "that moment",
     "numeric data are small integers / dyadic rationals; entries are compared with relative "
     "tolerance 1e-9 because center() divides by the number of rows",
 ]
@@ -135,12 +149,147 @@ def predict_parts(dm, nd, mode=None):
                         blocks.append(block[:, :len(labs)])
                         labels.extend(labs)
                     matrix = np.column_stack(blocks) if blocks else matrix
-                out.append((part, {"labels": labels, "matrix": designs.mat(matrix)}))
+                out.append((part, {"labels": labels, "matrix": fast_mat(matrix)}))
+                # the same matrix read term by term through the slices (new[name])
+                out.extend(term_blocks(new, part, exact=not (mode is not None and part == "group")))
             except Exception as e:  # noqa  (refusals on new data belong to C06 / C10)
                 out.append((part, {"err": type(e).__name__}))
     finally:
         formulae.config["EVAL_UNSEEN_CATEGORIES"] = old
     return out
+
+
+_FRAC = {}
+
+
+def fast_mat(a):
+    """designs.mat with the exact fraction of every distinct entry computed once (same output)"""
+    import numpy as np
+    a = np.asarray(a)
+    if a.ndim == 1:
+        a = a[:, None]
+    out = []
+    for row in a.tolist():
+        r = []
+        for v in row:
+            try:
+                r.append(_FRAC[v])
+            except KeyError:
+                f = designs.frac(v)
+                if f is not None:
+                    _FRAC[v] = f
+                r.append(f)
+        out.append(r)
+    return out
+
+
+def bad_text(first_bad):
+    if first_bad is not None and first_bad.startswith("number of labels"):
+        return "the number of labels differs from the number of columns of the (sub-)matrix"
+    return f"column labelled {first_bad!r} does not hold what the label says"
+
+
+def term_blocks(obj, part, exact=True):
+    """the matrix read term by term THROUGH THE SLICES (`obj[name]`, the access the library offers
+    for pairing names with columns) next to `term.labels`: one part per term, whose block must
+    have exactly the term's labels' columns (a term with no label owns no column), each holding
+    what its label says.  `exact=False` (group part evaluated with unseen levels): only the
+    first len(labels) columns of the block carry a label (columns appended for new groups)"""
+    import numpy as np
+    out = []
+    for name, t in obj.terms.items():
+        labs = designs._labels([t])
+        if labs is None:
+            continue
+        try:
+            block = np.asarray(obj[name])
+        except Exception as e:  # noqa
+            out.append((f"{part}[{name}]", {"err": type(e).__name__}))
+            continue
+        if block.ndim == 1:
+            block = block[:, None]
+        if not exact:
+            block = block[:, :len(labs)]
+        out.append((f"{part}[{name}]", {"labels": list(labs), "matrix": fast_mat(block)}))
+    return out
+
+
+def grouping_vars(dm):
+    out = []
+    if dm.group is not None:
+        for t in dm.group.terms.values():
+            for v in t.factor.var_names:
+                if v not in out:
+                    out.append(v)
+    return out
+
+
+def set_column(r, nd, df, v, rows, vals):
+    """write `vals` into the rows `rows` (positions) of column `v` of the frame object `nd`,
+    IN PLACE (the frame object stays the same): whole-column assignment or positional setting"""
+    import pandas as pd
+    cur = nd[v].tolist()
+    for k, x in zip(rows, vals):
+        cur[k] = x
+    dt = df[v].dtype
+    if r.random() < 0.5 and not isinstance(dt, pd.CategoricalDtype):
+        nd.iloc[rows, nd.columns.get_loc(v)] = vals
+        return "iloc"
+    if isinstance(dt, pd.CategoricalDtype):
+        nd[v] = pd.Categorical(cur, dtype=dt)
+    else:
+        nd[v] = pd.array(cur, dtype=dt)
+    return "setitem"
+
+
+def inplace_edit(r, nd, df, used, grouping, force_group):
+    """one in-place edit of the frame object `nd` (a frame that has been evaluated before and
+    will be evaluated again): new values (levels / numbers of the training frame, so that nothing
+    is unseen) in some rows of one to three USED columns -- a grouping variable first when
+    `force_group` --, an in-place reordering of the rows, or both.  Returns a description."""
+    n = len(nd)
+    kind = r.choice(["values", "values", "reorder", "both"])
+    done = []
+    if kind in ("values", "both"):
+        cands = [v for v in used if v in nd.columns and v in df.columns]
+        gv = [v for v in grouping if v in cands]
+        chosen = []
+        if gv and (force_group or r.random() < 0.5):
+            chosen.append(r.choice(gv))
+        for v in r.sample(cands, min(len(cands), r.randrange(1, 4))):
+            if v not in chosen and len(chosen) < 3:
+                chosen.append(v)
+        for v in chosen:
+            pool = df[v].tolist()
+            if r.random() < 0.4:
+                rows = list(range(n))
+            else:
+                rows = sorted(r.sample(range(n), r.randrange(1, n + 1)))
+            if r.random() < 0.3:                 # a permutation of the column's current values
+                cur = nd[v].tolist()
+                vals = [cur[k] for k in rows]
+                r.shuffle(vals)
+            else:
+                vals = [r.choice(pool) for _ in rows]
+            how = set_column(r, nd, df, v, rows, vals)
+            done.append(f"{v}:{how}:{len(rows)}")
+    if kind in ("reorder", "both"):
+        how = r.choice(["sort_values", "sort_index", "columns"])
+        if how == "sort_values":
+            by = r.choice([c for c in ("x", "z", "y", "k", "f", "g", "h") if c in nd.columns])
+            nd.sort_values(by=by, ascending=r.random() < 0.5, inplace=True, kind="stable")
+            done.append(f"rows:sort_values({by})")
+        elif how == "sort_index":
+            nd.sort_index(ascending=r.random() < 0.5, inplace=True, kind="stable")
+            done.append("rows:sort_index")
+        else:                                    # every column rewritten in a permuted row order
+            perm = list(range(n))
+            r.shuffle(perm)
+            for c in list(nd.columns):
+                col = nd[c]
+                nd[c] = col.array.take(perm)
+            done.append("rows:permuted")
+    return done
 
 
 def explore(tier, seed, res=None, replay=None):
@@ -155,7 +304,11 @@ def explore(tier, seed, res=None, replay=None):
                 "data (call atoms keep their training-time transform state); plus a frame in which "
                 "some rows of used categorical variables hold levels unseen at training, evaluated "
                 "under the 'silent' / 'warning' policy (labelled columns judged, appended new-group "
-                "columns not)")
+                "columns not); plus one frame object evaluated, edited in place (values of used grouping "
+                "/ effect columns, row order) and evaluated again, twice, each time judged on its "
+                "contents at that moment.  Every matrix is also read term by term through the slices "
+                "(dm.common[name], dm.group[name], new[name]) next to term.labels (zero-column terms "
+                "of the one-level factor `one` included)")
     n_cases = 600 if tier == "quick" else 12000
     cases = []
     if replay is not None:
@@ -186,6 +339,11 @@ def explore(tier, seed, res=None, replay=None):
             res.count("impl_error:" + obs["err"])
             continue
         parts = parts_of(obs)
+        # the blocks of the terms read through the slices (dm.common[name], dm.group[name])
+        for part in ("common", "group"):
+            obj = getattr(obs["_dm"], part)
+            if obj is not None:
+                parts.extend((pn, p) for pn, p in term_blocks(obj, part) if "err" not in p)
         reqs_spec.append({"op": "c04_spec", "formula": formula, "frame": req["frame"],
                           "names": req["names"], "parts": [p for _, p in parts]})
         reqs_model.append(req)
@@ -205,7 +363,21 @@ def explore(tier, seed, res=None, replay=None):
         if un is not None:
             mode = r.choice(UNSEEN_MODES)
             frames.append(("unseen_" + mode, un[0], mode, un[1]))
+        # one frame OBJECT evaluated, edited in place (values of used columns -- grouping and
+        # effect variables --, order of the rows) and evaluated again: every evaluation is judged on
+        # the contents the frame has at that moment
+        grouping = grouping_vars(obs["_dm"])
+        if grouping or r.random() < 0.25:
+            idx = [r.randrange(len(df)) for _ in range(r.randrange(4, 13))]
+            live = designs.scramble_index(r, df.iloc[idx]).copy()
+            frames.append(("inplace_0", live, None, None))
+            for step in (1, 2):
+                frames.append((f"inplace_{step}", live, None, ("edit", step == 1)))
         for kind, nd, mode, placed in frames:
+            edits = None
+            if isinstance(placed, tuple):
+                edits = inplace_edit(r, nd, df, sorted(used), grouping, placed[1])
+                placed = None
             pparts = predict_parts(obs["_dm"], nd, mode)
             good = []
             for pname, p in pparts:
@@ -219,6 +391,8 @@ def explore(tier, seed, res=None, replay=None):
                              "train_frame": req["frame"], "names": req["names"],
                              "parts": [p for _, p in good]})
             pcase = dict(case, stage="predict", new_frame=kind)
+            if edits is not None:
+                pcase["inplace_edits"] = edits
             if placed is not None:
                 pcase["unseen_rows"] = placed
                 pcase["new_frame_columns"] = {v: [str(x) for x in nd[v].tolist()] for v in placed}
@@ -246,9 +420,8 @@ def explore(tier, seed, res=None, replay=None):
                 res.failures.append({
                     "case": case, "impl": {"part": pname, "labels": p["labels"]},
                     "expected": "column of the evaluate_new_data matrix = decode(label) on the new frame",
-                    "why": (f"{pname}.evaluate_new_data on the {case['new_frame']} frame: column "
-                            f"labelled {v['first_bad']!r} does not hold what the label says"
-                            if not v["ok"] else
+                    "why": (f"{pname}.evaluate_new_data on the {case['new_frame']} frame: "
+                            + bad_text(v["first_bad"]) if not v["ok"] else
                             f"{pname}: levels not in sorted / declared order"),
                     "finding": None})
     for (case, obs, _), po in zip(owners, pipe):
@@ -273,8 +446,7 @@ def explore(tier, seed, res=None, replay=None):
                     res.failures.append({
                         "case": case, "impl": {"part": pname, "labels": p["labels"]},
                         "expected": "column = decode(label)",
-                        "why": (f"{pname}: column labelled {v['first_bad']!r} does not hold what "
-                                "the label says" if not v["ok"] else
+                        "why": (f"{pname}: " + bad_text(v["first_bad"]) if not v["ok"] else
                                 f"{pname}: levels not in sorted / declared order"),
                         "finding": None})
         if "err" in mo:
